@@ -11,6 +11,8 @@ import (
 	"time"
 )
 
+var qlog = os.Getenv("VERIF_QLOG") != ""
+
 type Result int
 
 const (
@@ -173,7 +175,15 @@ func (s *Solver) Check(assertions []*Term, wantModel []*Term) (Result, map[int]*
 		}
 	}
 	start := time.Now()
-	defer func() { s.Time += time.Since(start); s.Queries++ }()
+	var resForLog Result = Unknown
+	defer func() {
+		d := time.Since(start)
+		s.Time += d
+		s.Queries++
+		if qlog && d > 300*time.Millisecond {
+			fmt.Fprintf(os.Stderr, "qlog %s %.2fs %s (%d assertions)\n", s.kind, d.Seconds(), resForLog, len(assertions))
+		}
+	}()
 	var sb strings.Builder
 	for _, a := range assertions {
 		s.define(&sb, a)
@@ -226,6 +236,7 @@ func (s *Solver) Check(assertions []*Term, wantModel []*Term) (Result, map[int]*
 		}
 		break
 	}
+	resForLog = res
 	var model map[int]*big.Int
 	if res == Sat && len(wantModel) > 0 {
 		model = map[int]*big.Int{}
